@@ -91,7 +91,91 @@ def run(ctx):
     rng = ctx.rng
     reqs, metas = [], []
     fam = schemas.family()
-    n_s = ctx.budget(14, 60)
+    n_s = ctx.budget(30, 80)
+
+    def history(info, d, docs, kinds, nops):
+        tr = Transform(d)
+        log = []
+        for _ in range(nops):
+            name, args, thunk = ops.plan_op(rng, info, tr.doc, docs, kinds)
+            snap = (len(tr.steps), len(tr.docs), len(tr.mapping.maps), tr.doc)
+            st, val, added = ops.run_op(tr, thunk)
+            log.append(ops.describe(name, args) | {"outcome": st, "steps_added": added})
+            ctx.count("op:" + name + ":" + ("ok" if st == "ok" else "rejected"))
+            if not (len(tr.steps) == len(tr.docs) == len(tr.mapping.maps)):
+                ctx.violation("alignment", "steps/docs/maps are not aligned one-to-one",
+                              {"schema": info.name, "doc": d.to_json(), "ops": log})
+                break
+            if st != "ok" and added == 0 and (len(tr.steps), len(tr.docs), len(tr.mapping.maps)) != snap[:3]:
+                ctx.violation("rejected-op-changed-history", "a rejected operation changed the recorded history",
+                              {"schema": info.name, "doc": d.to_json(), "ops": log})
+        ctx.case(["history", info.name, d.to_json(), log], nontrivial=len(tr.steps) > 0,
+                 sample={"op": "history", "schema": info.name, "doc": str(d)[:120], "ops": [l["op"] for l in log], "steps": len(tr.steps)})
+        ctx.count("history_len_%d" % min(len(tr.steps), 8))
+        replay = {"schema": info.name, "doc": d.to_json(), "ops": log, "steps": [s.to_json() for s in tr.steps]}
+        # replay
+        cur = tr.before
+        good = tr.before.eq(d)
+        for k, s in enumerate(tr.steps):
+            if not cur.eq(tr.docs[k]):
+                good = False
+                break
+            st, res = outcome(lambda: s.apply(cur))
+            if st != "ok" or res.doc is None:
+                good = False
+                break
+            if list(s.get_map().ranges) != list(tr.mapping.maps[k].ranges):
+                good = False
+                break
+            cur = res.doc
+        if not good or not cur.eq(tr.doc):
+            ctx.violation("replay", "re-applying the recorded steps to the starting document does not reproduce the recorded documents", replay)
+            return
+        # undo in reverse
+        cur = tr.doc
+        okundo = True
+        failed_at = None
+        for k in range(len(tr.steps) - 1, -1, -1):
+            sti, inv = outcome(lambda: tr.steps[k].invert(tr.docs[k]))
+            if sti != "ok":
+                okundo, failed_at = False, k
+                break
+            stb, back = outcome(lambda: inv.apply(cur))
+            if stb != "ok" or back.doc is None:
+                okundo, failed_at = False, k
+                break
+            cur = back.doc
+        if not okundo or not cur.eq(d):
+            # the culprit: the last recorded step whose own inverse does not take its output document back to its input
+            # document (the chain of inverses is the composition of these single undos)
+            k = failed_at
+            if k is None:
+                for i in range(len(tr.steps) - 1, -1, -1):
+                    nxt = tr.docs[i + 1] if i + 1 < len(tr.docs) else tr.doc
+                    sti, inv = outcome(lambda: tr.steps[i].invert(tr.docs[i]))
+                    stb, back = outcome(lambda: inv.apply(nxt)) if sti == "ok" else ("internal", None)
+                    if stb != "ok" or back.doc is None or not back.doc.eq(tr.docs[i]):
+                        k = i
+                        break
+            k = k if k is not None else 0
+            detail = None
+            if tr.steps:
+                nxt = tr.docs[k + 1] if k + 1 < len(tr.docs) else tr.doc
+                sti, inv = outcome(lambda: tr.steps[k].invert(tr.docs[k]))
+                stb, back = outcome(lambda: inv.apply(nxt)) if sti == "ok" else ("internal", None)
+                detail = str(back.failed)[:200] if stb == "ok" and back is not None else str(back)[:200]
+            ctx.violation("history-undo", "applying the inverted steps in reverse order does not restore the starting document",
+                          dict(replay, failed_at=failed_at, culprit=k, detail=detail,
+                               step=tr.steps[k].to_json() if tr.steps else None,
+                               culprit_doc=tr.docs[k].to_json() if tr.steps else None,
+                               displaced_marks=displaced(tr.steps[k], tr.docs[k]) if tr.steps else None,
+                               node_mark=node_mark_info(tr.steps[k], tr.docs[k]) if tr.steps else None))
+        # every single recorded step also undoes exactly (it is a step emitted by a high-level operation)
+        for k, s in enumerate(tr.steps):
+            if isinstance(s, SINGLE_UNDO) and declared(s, tr.docs[k]):
+                nxt = tr.docs[k + 1] if k + 1 < len(tr.docs) else tr.doc
+                undo_single(ctx, info, tr.docs[k], s, nxt, reqs, metas, "history")
+
     for si in range(n_s):
         bundled = si < len(fam) or rng.random() < 0.6
         info = fam[si % len(fam)] if bundled else schemas.random_schema(rng)
@@ -102,7 +186,7 @@ def run(ctx):
             if ctx.time_left() < 0:
                 break
             # ---- single steps under every schema
-            for _ in range(ctx.budget(10, 30)):
+            for _ in range(ctx.budget(20, 40)):
                 step = gen.gen_step(rng, info, d, docs)
                 if not isinstance(step, SINGLE_UNDO) or not declared(step, d):
                     continue
@@ -112,69 +196,11 @@ def run(ctx):
             if not bundled:
                 continue
             # ---- histories over the bundled-family schemas
-            tr = Transform(d)
-            log = []
-            for _ in range(rng.randint(1, 12)):
-                name, args, thunk = ops.plan_op(rng, info, tr.doc, docs)
-                snap = (len(tr.steps), len(tr.docs), len(tr.mapping.maps), tr.doc)
-                st, val, added = ops.run_op(tr, thunk)
-                log.append(ops.describe(name, args) | {"outcome": st, "steps_added": added})
-                ctx.count("op:" + name + ":" + ("ok" if st == "ok" else "rejected"))
-                if not (len(tr.steps) == len(tr.docs) == len(tr.mapping.maps)):
-                    ctx.violation("alignment", "steps/docs/maps are not aligned one-to-one",
-                                  {"schema": info.name, "doc": d.to_json(), "ops": log})
-                    break
-                if st != "ok" and added == 0 and (len(tr.steps), len(tr.docs), len(tr.mapping.maps)) != snap[:3]:
-                    ctx.violation("rejected-op-changed-history", "a rejected operation changed the recorded history",
-                                  {"schema": info.name, "doc": d.to_json(), "ops": log})
-            ctx.case(["history", info.name, d.to_json(), log], nontrivial=len(tr.steps) > 0,
-                     sample={"op": "history", "schema": info.name, "doc": str(d)[:120], "ops": [l["op"] for l in log], "steps": len(tr.steps)})
-            ctx.count("history_len_%d" % min(len(tr.steps), 8))
-            replay = {"schema": info.name, "doc": d.to_json(), "ops": log, "steps": [s.to_json() for s in tr.steps]}
-            # replay
-            cur = tr.before
-            good = tr.before.eq(d)
-            for k, s in enumerate(tr.steps):
-                if not cur.eq(tr.docs[k]):
-                    good = False
-                    break
-                st, res = outcome(lambda: s.apply(cur))
-                if st != "ok" or res.doc is None:
-                    good = False
-                    break
-                if list(s.get_map().ranges) != list(tr.mapping.maps[k].ranges):
-                    good = False
-                    break
-                cur = res.doc
-            if not good or not cur.eq(tr.doc):
-                ctx.violation("replay", "re-applying the recorded steps to the starting document does not reproduce the recorded documents", replay)
-                continue
-            # undo in reverse
-            cur = tr.doc
-            okundo = True
-            failed_at = None
-            for k in range(len(tr.steps) - 1, -1, -1):
-                sti, inv = outcome(lambda: tr.steps[k].invert(tr.docs[k]))
-                if sti != "ok":
-                    okundo, failed_at = False, k
-                    break
-                stb, back = outcome(lambda: inv.apply(cur))
-                if stb != "ok" or back.doc is None:
-                    okundo, failed_at = False, k
-                    break
-                cur = back.doc
-            if not okundo or not cur.eq(d):
-                k = failed_at if failed_at is not None else 0
-                ctx.violation("history-undo", "applying the inverted steps in reverse order does not restore the starting document",
-                              dict(replay, failed_at=failed_at,
-                                   step=tr.steps[k].to_json() if tr.steps else None,
-                                   displaced_marks=max([displaced(s, tr.docs[i]) or 0 for i, s in enumerate(tr.steps)] or [0]),
-                                   node_mark=node_mark_info(tr.steps[k], tr.docs[k]) if tr.steps else None))
-            # every single recorded step also undoes exactly (it is a step emitted by a high-level operation)
-            for k, s in enumerate(tr.steps):
-                if isinstance(s, SINGLE_UNDO) and declared(s, tr.docs[k]):
-                    nxt = tr.docs[k + 1] if k + 1 < len(tr.docs) else tr.doc
-                    undo_single(ctx, info, tr.docs[k], s, nxt, reqs, metas, "history")
+            history(info, d, docs, None, rng.randint(1, 12))
+            # mark-only histories (wide ranges over mixed marked / unmarked inline content)
+            if schema.marks:
+                for _ in range(2):
+                    history(info, d, docs, ops.MARK_OPS, rng.randint(1, 3))
     outs = ctx.driver.run(reqs) if reqs else []
     for req, (op, replay, (info, doc, res_doc, impl_ok)), out in zip(reqs, metas, outs):
         ctx.count("model_requests")
